@@ -88,7 +88,8 @@ def cases(tier):
         # d<=1 on the skeletons with 5 branches
         cs = scopes.h_cases(3, 3, 2) + scopes.h_cases(4, 5, 1, nmin=4) + scopes.h_cases(
             4, 4, 2, nmin=4, with_config=False, with_labels=False, edge_only_above=3)
-    return cs + loop_cases()
+    tr = [dict(c, transient=True) for c in loop_cases() if c["oos"] is None and c["load"] in (None, "sink")]
+    return cs + loop_cases() + tr
 
 
 def run_case(case):
@@ -102,6 +103,22 @@ def run_case(case):
         return {"status": "build_error:" + type(e).__name__, "violations": []}
     kw = dict(spec.TIGHT)
     kw.update(opts)
+    if case.get("transient"):
+        # three consecutive transient time steps re-using the internal tables of the previous step
+        net.junction["pn_bar"] = 1.0
+        kw["mode"] = "sequential"
+        allv, info, sig = [], {}, []
+        for step in range(3):
+            try:
+                pp.pipeflow(net, transient=True, dt=60.0, simulation_time_step=step, **kw)
+            except Exception as e:
+                return {"status": "raised:" + type(e).__name__, "violations": allv}
+            r = check_net(net, case)
+            for v in r["violations"]:
+                v["detail"] = "transient step %d: %s" % (step, v["detail"])
+            allv += r["violations"]
+            sig.append(r["sig"])
+        return {"status": "ok", "violations": allv, "nontrivial": True, "sig": core.jhash(sig), "info": {"transient_steps": 3}}
     try:
         pp.pipeflow(net, **kw)
     except Exception as e:
